@@ -373,7 +373,8 @@ def add_trivia(rng, text):
             elif c == "#":
                 state = "#"
             elif c == " ":
-                out.append(rng.choice([" ", "  ", " /* c */ ", "\n", " // c\n", "\t", " /**/ "]))
+                out.append(rng.choice([" ", "  ", " /* c */ ", "\n", " // c\n", "\t", " /**/ ", " /* a ** b */ ", " /* 2**10 * / x */ ", " /* é😉 */ ",
+                                       " // * / ** /* not closed\n", " /* * */ ", "\r\n", " /* // */ ", " /*\n * multi\n * line\n */ "]))
                 i += 1
                 continue
         elif state == "#":
